@@ -25,4 +25,16 @@ CLAIMS = {
   technique="real-time trace-specification monitor over seeded heartbeat timelines + EgressBuffer differential model + raw-peer sessions",
   level_text="Held on every timeline explored (PING not early / not missing, close not early / not missing, one PONG with identical context, no heartbeat on v2), on every EgressBuffer history (whole chunks, FIFO, priority ahead) and on live/mute/traffic-only raw peers against a real ROUTER. Exploration.",
   level_note="Thresholds are judged outside a 1.5 ms band because the engine stamps activity with the real clock; io_uring sessions are covered under C20."),
+ "C04": dict(
+  technique="differential runtime monitor at the socket boundary: one peer transcript replayed under many write segmentations against real sockets (tcp, ipc, io_uring), delivered sequence compared with the transcript's data messages",
+  level_text="Held on every (transcript, socket, role, transport, backend, segmentation) explored, including every cut position within 12 bytes of the end of the handshake and the all-in-one write; the hook counter shows how often a data frame really shared a read with handshake bytes. Exploration.",
+  level_note="tcp/ipc write boundaries usually, not always, become read boundaries; CURVE/NOISE only with rzmq as connector (a facade engine plays the server)."),
+ "C07": dict(
+  technique="panic-hook + invariant monitor over man-in-the-middle mutated live handshakes and hostile data streams (engine), limit probes on every decoder entry point, hostile raw peer beside a healthy one on real sockets, drip-feed pacing against HANDSHAKE_IVL",
+  level_text="Held on every mutated exchange, hostile stream, limit probe, hostile session and pacing mode explored: no panic attributable to rzmq, buffering within MAXMSGSIZE+header+one read, exact-limit accepted / limit+1 rejected on all six entry points, hostile connection closed while the healthy one keeps its exactly-once stream, never-completing peers disconnected within 3*HANDSHAKE_IVL+1s, slot released. Exploration.",
+  level_note="Mutations are random, not coverage-guided; io_uring handshake timing is covered under C20; a panic is attributed to rzmq when its location/backtrace runs through /repo/core or xs_foundation."),
+ "C08": dict(
+  technique="offline history checker (multiset, per-pipe order, counters at quiescence) over thousands of short ReadyPipeQueue histories with seeded delays at hooked schedule points; gate-forced check/notified() windows for the Notify users",
+  level_text="Held on every history explored: no lost, duplicated or reordered item, counters consistent at quiescence, no consumer asleep with a non-empty pipe outside the ready list; the two Notify waiters complete when the condition becomes true inside the forced window. Exploration of sampled interleavings with widened windows, not enumeration.",
+  level_note="The quantifier 'all interleavings' is out of reach for this family; evidence reports how many distinct hook-hit orders were sampled."),
 }
